@@ -466,12 +466,13 @@ func (p *Properties) Unpack(bufr *bytes.Buffer, packetType byte) error {
 
 // ValidProperties is a map of the various properties and the
 // PacketTypes that is valid for server to unpack.
+// (The will properties of CONNECT are not CONNECT properties, see UnpackWillProperties.)
 var ValidProperties = map[byte]map[byte]struct{}{
-	PropPayloadFormat:          {CONNECT: {}, PUBLISH: {}},
-	PropMessageExpiry:          {CONNECT: {}, PUBLISH: {}},
-	PropContentType:            {CONNECT: {}, PUBLISH: {}},
-	PropResponseTopic:          {CONNECT: {}, PUBLISH: {}},
-	PropCorrelationData:        {CONNECT: {}, PUBLISH: {}},
+	PropPayloadFormat:          {PUBLISH: {}},
+	PropMessageExpiry:          {PUBLISH: {}},
+	PropContentType:            {PUBLISH: {}},
+	PropResponseTopic:          {PUBLISH: {}},
+	PropCorrelationData:        {PUBLISH: {}},
 	PropSubscriptionIdentifier: {SUBSCRIBE: {}},
 	PropSessionExpiryInterval:  {CONNECT: {}, CONNACK: {}, DISCONNECT: {}},
 	PropAssignedClientID:       {CONNACK: {}},
@@ -479,7 +480,7 @@ var ValidProperties = map[byte]map[byte]struct{}{
 	PropAuthMethod:             {CONNECT: {}, CONNACK: {}, AUTH: {}},
 	PropAuthData:               {CONNECT: {}, CONNACK: {}, AUTH: {}},
 	PropRequestProblemInfo:     {CONNECT: {}},
-	PropWillDelayInterval:      {CONNECT: {}},
+	PropWillDelayInterval:      {},
 	PropRequestResponseInfo:    {CONNECT: {}},
 	PropResponseInfo:           {CONNACK: {}},
 	PropServerReference:        {CONNACK: {}, DISCONNECT: {}},
